@@ -104,6 +104,13 @@ def call(fn, spell, ops, p, kw):
         return mg.sum(ops[0], axis=axis, keepdims=bool(p.get("keepdims", False)), **kw)
     if fn == "cumsum":
         return mg.cumsum(ops[0], axis=p["axis"], **kw)
+    if fn in ("max", "min"):
+        axis = tuple(p["axis"]) if isinstance(p.get("axis"), list) else p.get("axis")
+        if spell == "method":
+            return getattr(ops[0], fn)(axis=axis, keepdims=bool(p.get("keepdims", False)), **kw)
+        if spell == "np":
+            return getattr(np, fn)(ops[0], axis=axis, keepdims=bool(p.get("keepdims", False)))
+        return getattr(mg, fn)(ops[0], axis=axis, keepdims=bool(p.get("keepdims", False)), **kw)
     if fn == "getitem":
         ix = py_index(p["index"])
         for e in (ix if isinstance(ix, tuple) else (ix,)):
